@@ -73,13 +73,26 @@ def random_histories(ctx, dn, audit, until, removal=True, every=1, **genkw):
     """RND/RP: random histories biased to all relative-position classes, until `until` seconds of
     the budget remain"""
     n = 0
+    bystander = None
     while ctx.time_left() > until:
         directed = ctx.rng.random() < 0.5
         prog, fam = gen.random_program(ctx.rng, lambda: Model(directed, True), directed=directed, **genkw)
         _case(ctx, "RND", directed, prog, removal=removal, families=fam)
-        run_program(ctx, dn, prog, directed, audit, removal=removal, every=every)
+        # the monitor looks after every call in most histories, but sometimes only now and then or only at
+        # the end (state that heals when inspected must not escape)
+        ev = every if ctx.rng.random() < 0.75 else ctx.rng.choice((0, 2, 4))
+        G, m, ok = run_program(ctx, dn, prog, directed, audit, removal=removal, every=ev)
         if n < 2:
             ctx.sample(ctx.case)
+        # instances are independent: a graph built earlier and left alone still answers as its own model says
+        # after other graphs have been built and updated (class-level or shared mutable state would show here)
+        if bystander is not None and n % 5 == 0:
+            bG, bm, bcase = bystander
+            ctx.case = dict(bcase, role="bystander re-audited after", later_program=prog)
+            ctx.cell("bystander-reaudited")
+            guarded(ctx, "bystander", audit, ctx, dn, bG, bm)
+        if ok and m.nontrivial() and (bystander is None or n % 5 == 0):
+            bystander = (G, m, ctx.case)
         n += 1
     return n
 
@@ -113,3 +126,51 @@ def stress(ctx, dn, audit, n_ops, every=50):
     G, m2, ok = run_program(ctx, dn, prog, directed, audit, every=every)
     ctx.sample(dict(workload="STRESS", directed=directed, ops=len(prog), head=prog[:12]))
     return ok
+
+
+def second_life(ctx, dn, audit, n=1):
+    """RESET: a graph is filled and inspected, emptied with clear()/clear_edges(), refilled with the same
+    history shifted in time WITHOUT being looked at, and inspected at the end only."""
+    from .. import driver as drv
+    for _ in range(n):
+        directed = ctx.rng.random() < 0.5
+        prog, fam = gen.random_program(ctx.rng, lambda: Model(directed, True), directed=directed,
+                                       tfamily=ctx.rng.choice(("small", "neg")), p_big=0, with_nodes=False)
+        shift = ctx.rng.choice((3, 7, 20, 100))
+
+        def sh(op):
+            if op[0] == "add":
+                return (op[0], op[1], op[2], None if op[3] is None else op[3] + shift,
+                        None if op[4] is None else op[4] + shift)
+            if op[0] == "addfrom":
+                return (op[0], op[1], None if op[2] is None else op[2] + shift, None if op[3] is None else op[3] + shift)
+            if len(op) > 3:
+                return (op[0], op[1], None if op[2] is None else op[2] + shift, None if op[3] is None else op[3] + shift)
+            return (op[0], op[1], None if op[2] is None else op[2] + shift)
+        reset = (ctx.rng.choice(("clear", "clear_edges")),)
+        full = list(prog) + [reset] + [sh(op) for op in prog]
+        _case(ctx, "RESET", directed, full, families=fam)
+        ctx.cell("reset:" + reset[0])
+        G = drv.new_graph(dn, directed, True)
+        m = Model(directed, True)
+        ok = True
+        for i, op in enumerate(full):
+            ok, _ = drv.step(ctx, dn, G, m, op)
+            if not ok:
+                break
+            if i == len(prog) - 1:
+                guarded(ctx, "reset:first-life", audit, ctx, dn, G, m)
+        if ok:
+            guarded(ctx, "reset:second-life", audit, ctx, dn, G, m)
+            if m.nontrivial():
+                ctx.nontrivial("reset", m.state_key(), reset[0])
+
+
+def long_timelines(ctx, dn, audit, n=1):
+    """LONG: few pairs, one with 9-16 separate runs; audited a few times along the way and at the end"""
+    for _ in range(n):
+        directed = ctx.rng.random() < 0.5
+        prog = gen.long_timeline_program(ctx.rng, directed)
+        _case(ctx, "LONG", directed, prog)
+        ctx.cell("long-timeline")
+        run_program(ctx, dn, prog, directed, audit, every=7)
